@@ -23,11 +23,11 @@ open Physis Physis.Spec.Mdl
 `meshIndex` / `meshCount`, `elementAddress` and `readStreams` take the vertex base from
 `vertexDataOffset`.  Nothing reads `mid`, `edgeGeometryDataOffset`, `polygonCount`,
 `vertexBufferSize`, `indexBufferSize`, `indexDataOffset`. -/
-def lodKey (l : MeshLod) : UInt16 × UInt16 × UInt32 := (l.meshIndex, l.meshCount, l.vertexDataOffset)
+def lodReadKey (l : MeshLod) : UInt16 × UInt16 × UInt32 := (l.meshIndex, l.meshCount, l.vertexDataOffset)
 
 /-- `fh'` / `md'` agree with `fh` / `md` on every field that `fromExisting` reads after the two
 header parses.  Of the file header that is `indexOffsets` alone (`readPart`); of the runtime block:
-the three fields `lodKey` of every LOD row (`readLod`, `elementAddress`, `readStreams`), the
+the three fields `lodReadKey` of every LOD row (`readLod`, `elementAddress`, `readStreams`), the
 declarations and the mesh table (`readPart`), the sub-mesh table (`readSubmeshes`), the three shape
 tables (`readShapes`), the string table (`readShapes`, the name lookups), the LOD count of the
 `ModelHeader` (the loop of `fromExisting`) and the bone / material name offsets.
@@ -36,12 +36,12 @@ Not constrained, because never read: `FileHeader.version`, `stackSize`, `runtime
 `vertexDeclarationCount`, `materialCount`, `vertexOffsets`, `vertexBufferSize`, `indexBufferSize`,
 `lodCount`, the two flags (`version` and `vertexDeclarationCount` are read by the *grammar*, i.e.
 they influence which `md'` the header stage returns, not what happens afterwards); every
-`ModelHeader` field but `strings` and `lodCount`; of a LOD row everything but `lodKey`;
+`ModelHeader` field but `strings` and `lodCount`; of a LOD row everything but `lodReadKey`;
 `elementIds`, `attributeNameOffsets`, the terrain-shadow tables, both bone tables, the sub-mesh bone
 map with its sizes, the padding and the bounding boxes. -/
 structure ReadsSame (fh fh' : FileHeader) (md md' : ModelData) : Prop where
   indexOffsets : fh'.indexOffsets = fh.indexOffsets
-  lods : md'.lods.map lodKey = md.lods.map lodKey
+  lods : md'.lods.map lodReadKey = md.lods.map lodReadKey
   decls : md'.decls = md.decls
   meshes : md'.meshes = md.meshes
   submeshes : md'.submeshes = md.submeshes
@@ -55,7 +55,7 @@ structure ReadsSame (fh fh' : FileHeader) (md md' : ModelData) : Prop where
 
 instance (fh fh' : FileHeader) (md md' : ModelData) : Decidable (ReadsSame fh fh' md md') :=
   decidable_of_iff
-    (fh'.indexOffsets = fh.indexOffsets ∧ md'.lods.map lodKey = md.lods.map lodKey ∧
+    (fh'.indexOffsets = fh.indexOffsets ∧ md'.lods.map lodReadKey = md.lods.map lodReadKey ∧
       md'.decls = md.decls ∧ md'.meshes = md.meshes ∧ md'.submeshes = md.submeshes ∧
       md'.shapes = md.shapes ∧ md'.shapeMeshes = md.shapeMeshes ∧ md'.shapeValues = md.shapeValues ∧
       md'.header.strings = md.header.strings ∧ md'.header.lodCount = md.header.lodCount ∧
@@ -139,7 +139,7 @@ theorem readLod_congr (RS : ReadsSame fh fh' md md') (file : Array UInt8) (i : N
     | none => rw [h', h] at hk; cases hk
     | some l =>
       rw [h', h] at hk
-      simp only [Option.map_some, Option.some.injEq, lodKey, Prod.mk.injEq] at hk
+      simp only [Option.map_some, Option.some.injEq, lodReadKey, Prod.mk.injEq] at hk
       obtain ⟨h1, h2, h3⟩ := hk
       simp only [R.ok_bind, h1, h2, readPart_congr RS h3]
 
@@ -210,13 +210,13 @@ theorem HasSections.parse_readsSame {m : AbstractModel} {file : Bytes} (S : HasS
 
 /-! ### 4. the instance `encodeMdlR m ρ` -/
 
-theorem lodKey_redundant (ρ : Redundant) (i : Nat) (l : MeshLod) : lodKey (ρ.lod i l) = lodKey l := rfl
+theorem lodReadKey_redundant (ρ : Redundant) (i : Nat) (l : MeshLod) : lodReadKey (ρ.lod i l) = lodReadKey l := rfl
 
-theorem map_lodKey_redundant (ρ : Redundant) (l : List MeshLod) :
-    ∀ i, (ρ.lods i l).map lodKey = l.map lodKey := by
+theorem map_lodReadKey_redundant (ρ : Redundant) (l : List MeshLod) :
+    ∀ i, (ρ.lods i l).map lodReadKey = l.map lodReadKey := by
   induction l with
   | nil => intro i; rfl
-  | cons x xs ih => intro i; simp only [Redundant.lods, List.map_cons, ih, lodKey_redundant]
+  | cons x xs ih => intro i; simp only [Redundant.lods, List.map_cons, ih, lodReadKey_redundant]
 
 theorem length_lods_redundant (ρ : Redundant) (l : List MeshLod) :
     ∀ i, (ρ.lods i l).length = l.length := by
@@ -242,7 +242,7 @@ theorem length_encMeshLod_redundant (ρ : Redundant) (l : List MeshLod) :
 /-- the replaced records agree with the original ones on every field that is read -/
 theorem readsSame_redundant (ρ : Redundant) (fh : FileHeader) (md : ModelData) :
     ReadsSame fh (ρ.fh fh) md (ρ.md md) :=
-  ⟨rfl, map_lodKey_redundant ρ md.lods 0, rfl, rfl, rfl, rfl, rfl, rfl, rfl, rfl, rfl, rfl⟩
+  ⟨rfl, map_lodReadKey_redundant ρ md.lods 0, rfl, rfl, rfl, rfl, rfl, rfl, rfl, rfl, rfl, rfl⟩
 
 /-- the grammar's consistency predicate does not mention a replaced field -/
 theorem modelDataOk_redundant (ρ : Redundant) (fh : FileHeader) (md : ModelData) :
